@@ -102,5 +102,6 @@ def streams(tier):
             Stream('crowded', check, strategy=lambda: sched.fwd_case(max_tasks=n, min_tasks=3, palette_max=1, balance=True,
                                                                      min_start_pool=[2, 3, 9], min_start_rate=2),
                    examples={'quick': 3200, 'thorough': 40000}),
+            Stream('large', check, strategy=lambda: sched.fwd_case(max_tasks=30, min_tasks=13), examples={'quick': 400, 'thorough': 6000}),
             Stream('removal', check_removal, strategy=lambda: removal_case(max_tasks=n),
                    examples={'quick': 1200, 'thorough': 24000})]
